@@ -195,6 +195,10 @@ def build_items(ctx, rnd):
             # an escaped backslash in the pattern is a separator
             if '/' in t and k % 2 == 0:
                 items.append(('lang_eq', 'gl', t, E | G.FORCEWIN, E | G.FORCEWIN, {'pattern2': t.replace('/', '\\\\')}))
+            if '/' in t and k % 3 == 0 and not t.startswith('/'):       # (a leading double separator is a UNC prefix in Windows mode)
+                # ... also directly in front of another separator (a run of separators counts as one)
+                items.append(('lang_eq', 'gl', t, E | G.FORCEWIN, E | G.FORCEWIN, {'pattern2': t.replace('/', '\\\\/', 1)}))
+                items.append(('lang_eq', 'gl', t, E | G.FORCEWIN, E | G.FORCEWIN, {'pattern2': t.replace('/', '/\\\\', 1)}))
     # literal text in case-sensitive mode matches only its exact spelling
     for text in ('a', 'ab', 'Ab', 'aB.c', 'A-b', 'xYz'):
         items.append(('literal_exact', 'fn', text, F.CASE, F.CASE, {'text': text}))
